@@ -13,7 +13,7 @@ R17.5 errors are located    : in opcode implementations, the stack handle and th
 """
 from .. import facts as F
 from .. import terms as T
-from ..vmmodel import EXEC_ERR, JUMP_KINDS, PERMISSIVE, CONFIG, VMModel, arm_kinds, mentions_flag, permissive_guard
+from ..vmmodel import EXEC_ERR, JUMP_KINDS, PERMISSIVE, CONFIG, KindFlagEval, VMModel
 
 
 def variants_built(node):
@@ -59,86 +59,59 @@ def check(fx, rep, tier):
     # ---------------------------------------------------------------- R17.1
     sites = vm.buffer_writer_sites()
     rep.floor("R17.1", len(sites), 2, "calls recording an execution error in the VM's buffer")
-    filtered_kinds = set()
     site_info = []
+    evals = {}
+    FLAGS = (False, True)
     for b, n, ps, via in sites:
         rep.fn(b["def"])
         w = F.loc(n["span"])
-        kinds, implied = arm_kinds(ps, all_kinds, with_implied=True, fx=fx)
-        how = "match arm"
-        if kinds is None:
-            built = set()
-            for a in F.call_args(n)[1:] if n.get("k") == "MethodCall" else F.call_args(n):
-                built |= variants_built(a)
-            if built:
-                kinds, how = built, "constructed in place"
-        if kinds is None:
-            for a in F.call_args(n):
-                lid = F.local_of(a)
-                if lid is not None:
-                    k2 = kinds_from_binding(b["hir"]["value"], lid)
-                    if k2 is not None:
-                        kinds, how = k2, "bound from a kind-selecting match"
-        guard = permissive_guard(ps)
-        ordinal = sum(1 for x in site_info if x[0] == b["def"]) + 1
+        root_b = b["hir"]["value"]
+        ev = evals.get(b["def"])
+        if ev is None:
+            ev = evals[b["def"]] = KindFlagEval(fx, root_b, all_kinds)
+        built = set()
+        for a in F.call_args(n)[1:] if n.get("k") == "MethodCall" else F.call_args(n):
+            built |= variants_built(a)
+        ordinal = sum(1 for x in site_info if x["fn"] == b["def"]) + 1
         key = f"writer:{F.strip_generics(b['def'])}#{ordinal}"
-        if kinds is not None and implied and guard is None and (kinds & JUMP_KINDS) <= implied:
-            # jump kinds reach this site only with the flag off (an earlier arm guarded by the flag took them):
-            # record it as two logical sites
-            site_info.append((b["def"], kinds & JUMP_KINDS, "not-permissive", n, ps))
-            filtered_kinds |= kinds & JUMP_KINDS
-            kinds = kinds - JUMP_KINDS
-            how = "match arm (jump kinds intercepted by a flag-guarded arm)"
-        site_info.append((b["def"], kinds, guard, n, ps))
-        if kinds is None:
-            rep.oblige(False, "R17.1", key, w, f"cannot determine which error kinds reach this recording site in `{b['def']}` (unrecognised idiom): it may record jump-target errors in permissive mode")
-            continue
-        jump = kinds & JUMP_KINDS
-        other = kinds - JUMP_KINDS
-        if jump and other:
-            ok = False
-            msg = f"site can receive both jump-target kinds {sorted(jump)} and other kinds {sorted(other)[:3]}..: the two classes need different treatment in permissive mode"
-        elif jump:
-            ok = guard == "not-permissive"
-            msg = f"jump-target errors {sorted(jump)} are recorded {'only in permissive mode' if guard=='permissive' else 'regardless of the permissive flag'}: permissive mode must tolerate them, strict mode must surface them"
-            if ok:
-                filtered_kinds |= jump
+        if built:
+            # the recorded error is constructed at the site: its kind is known, only the flag matters
+            table = {(k, p): ev.reach(ps, n, None, p) for k in built for p in FLAGS}
+            kinds = built
+            how = "constructed in place"
         else:
-            ok = guard is None
-            msg = f"errors {sorted(other)[:4]} are recorded only when {guard}: every error other than a bad jump target must fail the run in both modes"
+            # the recorded error is the one being handled: evaluate every (kind, flag) combination along the path
+            table = {(k, p): ev.reach(ps, n, k, p) for k in all_kinds for p in FLAGS}
+            kinds = {k for k in all_kinds if table[(k, False)] is not False or table[(k, True)] is not False}
+            how = "evaluated over all (kind, flag) combinations"
+        info = {"fn": b["def"], "node": n, "ps": ps, "table": table, "kinds": kinds, "built": bool(built), "key": key}
+        site_info.append(info)
+        jump_in_permissive = sorted(k for k in kinds & JUMP_KINDS if table[(k, True)] is not False)
+        flag_dependent = sorted(k for k in kinds - JUMP_KINDS if (table[(k, True)] is False) != (table[(k, False)] is False))
+        unknown = sorted(k for k in kinds if table[(k, True)] is None or table[(k, False)] is None)
+        msg = ""
+        if jump_in_permissive:
+            msg = f"jump-target errors {jump_in_permissive} can be recorded in permissive mode{' (the conditions on the way are not understood: unrecognised idiom)' if set(jump_in_permissive) & set(unknown) else ''}: permissive mode must tolerate bad jump targets"
+        elif flag_dependent:
+            only = "strict" if table[(flag_dependent[0], True)] is False else "permissive"
+            msg = f"errors {flag_dependent[:4]} are recorded only in {only} mode: every error other than a bad jump target must fail the run in both modes"
         rep.oblige(
-            ok,
+            not jump_in_permissive and not flag_dependent,
             "R17.1",
             key,
             w,
             msg,
-            sample={"rule": "R17.1", "fn": b["def"], "kinds": sorted(kinds)[:6], "kinds_from": how, "guard": guard, "at": w},
+            sample={
+                "rule": "R17.1",
+                "fn": b["def"],
+                "at": w,
+                "kinds_from": how,
+                "recorded_when_strict": sorted(k for k in kinds if table[(k, False)] is True)[:8],
+                "recorded_when_permissive": sorted(k for k in kinds if table[(k, True)] is True)[:8],
+            },
         )
-    rep.oblige(
-        filtered_kinds == JUMP_KINDS or not filtered_kinds,
-        "R17.1",
-        "filtered-kinds",
-        "-",
-        f"the permissive flag filters {sorted(filtered_kinds)}; it must filter exactly the four jump-target kinds {sorted(JUMP_KINDS)}",
-    )
-    # no arm that matches jump kinds under the permissive flag may swallow other kinds
-    ml = vm.main_loop
-    for m, ps in F.exprs(ml["hir"]["value"], "Match"):
-        for a in m["arms"]:
-            pv = F.pat_variants(a["pat"])
-            if pv and all(x == EXEC_ERR for x, _ in pv):
-                ks = {v for _, v in pv}
-                if mentions_flag(a["body"]) or ("guard" in a and mentions_flag(a["guard"])):
-                    rep.oblige(
-                        ks <= JUMP_KINDS,
-                        "R17.1",
-                        "flag-arm-kinds",
-                        F.loc(a["span"]),
-                        f"the arm whose treatment depends on the permissive flag also matches {sorted(ks - JUMP_KINDS)}: those errors would be tolerated in permissive mode",
-                        sample={"rule": "R17.1", "arm_kinds": sorted(ks)},
-                    )
-
     # ---------------------------------------------------------------- R17.2
+    ml = vm.main_loop
     root = ml["hir"]["value"]
     oks = []
     for n, ps in F.walk(root):
@@ -171,21 +144,45 @@ def check(fx, rep, tier):
         if is_result:
             result_oks.append((n, ps))
     rep.floor("R17.2", len(result_oks), 1, "Ok results of the VM main loop function")
+    def is_empty_test(c):
+        """(True, polarity) if c is `[!]*buffer.is_empty()` on the execution-error buffer."""
+        neg = False
+        while c.get("k") in ("DropTemps", "Use") or (c.get("k") == "Unary" and c.get("op") == "Not"):
+            if c.get("k") == "Unary":
+                neg = not neg
+            c = c["e"]
+        if c.get("k") == "MethodCall" and c["method"] == "is_empty" and EXEC_ERR in (c.get("recv_ty") or ""):
+            return True, not neg
+        return False, None
+
     for n, ps in result_oks:
         guarded = False
+        # enclosing `if buffer.is_empty() { Ok } else { Err }` (either polarity) ...
         for anc, key in ps:
             if anc.get("k") == "If" and key in ("then", "else"):
-                c = anc["cond"]
-                neg = False
-                while c.get("k") == "Unary" and c.get("op") == "Not":
-                    neg = not neg
-                    c = c["e"]
-                if c.get("k") == "MethodCall" and c["method"] == "is_empty" and EXEC_ERR in (c.get("recv_ty") or ""):
-                    if (key == "then") != neg:
-                        guarded = True
-                        other = anc.get("else") if key == "then" else anc.get("then")
-                        err_ok = other is not None and any(x.get("k") == "Call" and (F.path_def(x["f"]) or "").endswith("::Err") for x, _ in F.walk(other))
-                        rep.oblige(err_ok, "R17.2", "err-when-nonempty", F.loc(anc["span"]), "when the error buffer is not empty the main loop does not return Err(buffer)")
+                is_t, pol = is_empty_test(anc["cond"])
+                if is_t and (key == "then") == pol:
+                    guarded = True
+                    other = anc.get("else") if key == "then" else anc.get("then")
+                    err_ok = other is not None and any(x.get("k") == "Call" and (F.path_def(x["f"]) or "").endswith("::Err") for x, _ in F.walk(other))
+                    rep.oblige(err_ok, "R17.2", "err-when-nonempty", F.loc(anc["span"]), "when the error buffer is not empty the main loop does not return Err(buffer)")
+        # ... or an earlier `if !buffer.is_empty() { return Err(..) }` in an enclosing block
+        if not guarded:
+            nk = T._span_key(n["span"])
+            for anc, key in ps:
+                if "stmts" in anc and "k" not in anc:
+                    for st in anc["stmts"]:
+                        e = st.get("e") if st.get("s") == "Expr" else None
+                        while e is not None and e.get("k") in ("DropTemps", "Use"):
+                            e = e["e"]
+                        if e is None or e.get("k") != "If" or "else" in e or not T.diverges(e["then"]):
+                            continue
+                        ek = T._span_key(e["span"])
+                        is_t, pol = is_empty_test(e["cond"])
+                        if is_t and pol is False and ek and nk and ek[2] <= nk[1]:
+                            guarded = True
+                            err_ok = any(x.get("k") == "Call" and (F.path_def(x["f"]) or "").endswith("::Err") for x, _ in F.walk(e["then"])) and any(x.get("k") == "Ret" for x, _ in F.walk(e["then"]))
+                            rep.oblige(err_ok, "R17.2", "err-when-nonempty", F.loc(e["span"]), "when the error buffer is not empty the main loop does not return Err(buffer)")
         rep.oblige(
             guarded,
             "R17.2",
@@ -246,20 +243,23 @@ def check(fx, rep, tier):
             "an opcode error does not end the current thread on every path of the main loop's Err arm: the thread keeps executing past the failed instruction",
             sample={"rule": "R17.3", "kills": len(kills), "unconditional": uncond},
         )
-        # coverage of kinds by recording sites inside the arm
-        arm_sites = [(k, g) for fn, k, g, n, ps in site_info if fn == ml["def"] and any(x is n for x, _ in F.walk(body))]
-        covered_jump = set()
-        covered_other = set()
-        for k, g in arm_sites:
-            if k is None:
-                continue
-            if g == "not-permissive":
-                covered_jump |= k & JUMP_KINDS
-            if g is None:
-                covered_other |= k
-        missing_other = set(all_kinds) - JUMP_KINDS - covered_other
-        rep.oblige(not missing_other, "R17.3", "record-all-other", F.loc(err_arm["span"]), f"errors of kind {sorted(missing_other)[:4]} raised by an instruction are not recorded: strict mode would succeed despite them")
-        rep.oblige(covered_jump == JUMP_KINDS or JUMP_KINDS <= covered_other, "R17.3", "record-jump-strict", F.loc(err_arm["span"]), f"jump-target errors {sorted(JUMP_KINDS - covered_jump)} are not recorded in strict mode")
+        # coverage of (kind, flag) combinations by the recording sites inside the arm
+        arm_sites = [x for x in site_info if x["fn"] == ml["def"] and not x["built"] and any(y is x["node"] for y, _ in F.walk(body))]
+        def recorded(k, p):
+            return any(x["table"].get((k, p)) is True for x in arm_sites)
+        missing_other = sorted(k for k in set(all_kinds) - JUMP_KINDS if not (recorded(k, False) and recorded(k, True)))
+        missing_jump = sorted(k for k in JUMP_KINDS if not recorded(k, False))
+        rep.oblige(not missing_other, "R17.3", "record-all-other", F.loc(err_arm["span"]), f"errors of kind {missing_other[:4]} raised by an instruction are not recorded in both modes: the run would succeed despite them")
+        rep.oblige(not missing_jump, "R17.3", "record-jump-strict", F.loc(err_arm["span"]), f"jump-target errors {missing_jump} are not recorded in strict mode")
+        filtered = sorted(k for k in all_kinds if recorded(k, False) and not any(x["table"].get((k, True)) is not False for x in arm_sites))
+        rep.oblige(
+            set(filtered) == JUMP_KINDS,
+            "R17.1",
+            "filtered-kinds",
+            F.loc(err_arm["span"]),
+            f"the permissive flag filters {filtered}; it must filter exactly the four jump-target kinds {sorted(JUMP_KINDS)}",
+            sample={"rule": "R17.1", "filtered_by_flag": filtered},
+        )
 
     # ---------------------------------------------------------------- R17.4
     reads = []
@@ -271,21 +271,38 @@ def check(fx, rep, tier):
             if n.get("k") == "Field" and n["field"] == PERMISSIVE and n.get("adt") == CONFIG:
                 reads.append((b, n, ps))
     rep.floor("R17.4", len(reads), 1, "reads of the permissive flag outside the configuration type")
-    for b, n, ps in reads:
-        # the read sits in a condition (If cond / arm guard) that guards a writer site
-        guards_writer = False
+    def guards_a_writer(holder):
+        if any(any(y is x["node"] for y, _ in F.walk(holder)) for x in site_info):
+            return True
+        # `{}` arm guarded by the flag with no writer inside: a legitimate "tolerate" form if the arm matches jump kinds
+        if "pat" in holder:
+            pv = F.pat_variants(holder["pat"])
+            if pv and {v for _, v in pv} <= JUMP_KINDS:
+                return True
+        return False
+
+    def condition_holder(ps):
         for anc, key in reversed(ps):
             if (anc.get("k") == "If" and key == "cond") or ("pat" in anc and key == "guard"):
-                holder = anc
-                for fn, k, g, wn, wps in site_info:
-                    if any(x is wn for x, _ in F.walk(holder)):
-                        guards_writer = True
-                # `{}` arm guarded by the flag with no writer inside: also a legitimate "tolerate" form if the arm matches jump kinds
-                if not guards_writer and "pat" in anc:
-                    pv = F.pat_variants(anc["pat"])
-                    if pv and {v for _, v in pv} <= JUMP_KINDS:
-                        guards_writer = True
-                break
+                return anc
+            if anc.get("s") == "Let" or anc.get("k") in ("Closure", "Loop"):
+                return None
+        return None
+
+    for b, n, ps in reads:
+        # the read sits in a condition (If cond / arm guard) that guards a writer site, or in the initialiser of an
+        # immutable boolean local that is used only in such conditions
+        guards_writer = False
+        holder = condition_holder(ps)
+        if holder is not None:
+            guards_writer = guards_a_writer(holder)
+        else:
+            let = next((anc for anc, key in reversed(ps) if anc.get("s") == "Let" and key == "init"), None)
+            if let is not None and let["pat"].get("p") == "Bind" and let["pat"]["local"] not in T.mutated_locals(b["hir"]["value"]):
+                lid = let["pat"]["local"]
+                uses = [(u, ups) for u, ups in F.walk(b["hir"]["value"]) if u.get("k") == "Path" and u.get("res") == "local" and u.get("local") == lid]
+                if uses:
+                    guards_writer = all((lambda h: h is not None and guards_a_writer(h))(condition_holder(ups)) for u, ups in uses)
         rep.oblige(
             guards_writer,
             "R17.4",
